@@ -93,4 +93,33 @@ C06_SELECT = dict(
     ignore=["logger.warning(__a)", "logger.info(__a)"],
 )
 
-ALL = [C16_FILTER, C17_SAMPLE, C06_SELECT]
+C06_SCORE_CHUNK = dict(
+    file="src/batchie/scoring/main.py", func="score_chunk",
+    out="SrcScoring.v", imports="Model.Scores", name="src_score_chunk",
+    pyparams=["scorer", "thetas", "screen", "distance_matrix", "rng", "progress_bar", "n_chunks", "chunk_index", "batch_plate_ids"],
+    # thetas, distance_matrix, progress_bar are only handed on to scorer.score, whose answer is an arbitrary function of the plates dict
+    params=[("scorer", "scorer_fn"), ("screen", "screen"), ("rng", "opt rng_t"), ("n_chunks", "Z"), ("chunk_index", "Z"),
+            ("batch_plate_ids", "opt list Z")],
+    returns="holder",
+    vars={
+        "rng": "rng_t", "plate": "plate", "p": "plate",
+        "unobserved_plates": "list plate", "chunk_plates": "list plate", "previously_selected_plates": "list plate",
+        "previously_selected_plates_combined": "subset", "conditioned_plate": "subset", "plates_to_score": "dict subset",
+        "scores_holder": "holder", "scores": "dict", "k": "Z", "v": "Z",
+    },
+    coerce=[("plate", "subset", "p_rows {x}")],        # a Plate is a ScreenSubset: its selection
+    prims=_SCORING_PRIMS + [
+        ("np.array_split(__l, __n)[__i].tolist()", "!array_split_at {l} {n} {i}", "list plate", {"l": "list plate", "n": "Z", "i": "Z"}),
+        ("ScreenSubset.concat(__l)", "!subset_concat screen' {l}", "subset", {"l": "list subset"}),
+        ("__p.combine(__q)", "subset_union screen' {p} {q}", "subset", {"p": "subset", "q": "subset"}),
+        ("filter_dataset_to_unique_treatments(__x)", "uniq_first [] {x}", "subset", {"x": "subset"}),
+        ("len(__d)", "Z.of_nat (length {d})", "Z"),
+        ("ChunkedScoresHolder(__n)", "holder_new (Z.to_nat {n})", "holder", {"n": "Z"}),
+        ("scorer.score(plates=__p, distance_matrix=distance_matrix, samples=thetas, rng=__r, progress_bar=progress_bar)",
+         "scorer' {p}", "dict", {"p": "dict subset", "r": "rng_t"}),
+    ],
+    effects=[("scores_holder.add_score(__k, __v)", "scores_holder'", "!add_score {state} {k} {v}")],
+    ignore=["logger.info(__a)"],
+)
+
+ALL = [C16_FILTER, C17_SAMPLE, C06_SELECT, C06_SCORE_CHUNK]
